@@ -104,6 +104,29 @@ def rule_finish_submits(ctx, facts, rule):
                   "a path returns at bb%s without send_command and without the token being empty" % wit, extra="submit")
 
 
+SPAN_NEW = "fastrace::span::Span::new"
+
+
+def span_builds(facts):
+    """Every place a recording span comes into being: the SpanInner aggregates, seen from the API-level functions with
+    the private constructor (Span::new on the confirmed tree; new_root / new_child / SpanInner::begin after a refactoring)
+    looked through. -> [(view Fn, block, {field: operand})]"""
+    from .core import inline_calls
+    has_callers = any(g.calls(lambda t: t["callee"] == SPAN_NEW) for g in facts.fns.values())
+    out = []
+    for g in list(facts.fns.values()):
+        if g.crate != "fastrace" or (g.path == SPAN_NEW and has_callers):
+            continue
+        v = inline_calls(facts, g, lambda h: h.path == SPAN_NEW, depth=2) if g.calls(lambda t: t["callee"] == SPAN_NEW) else g
+        for b, blk in enumerate(v.blocks):
+            if blk["cleanup"]:
+                continue
+            for st in blk["stmts"]:
+                if st["k"] == "assign" and st["rv"]["k"] == "agg" and st["rv"].get("adt") == "fastrace::span::SpanInner":
+                    out.append((v, b, dict(zip(st["rv"]["fields"], st["rv"]["ops"]))))
+    return out
+
+
 def rule_signals_forced(ctx, facts, rule, kinds=("CommitCollect", "DropCollect")):
     """C01-R2ab: finish and cancel signals go through the never-dropping path."""
     prov = Prov(facts)
@@ -183,30 +206,24 @@ def rule_cancel_roots_only(ctx, facts, rule):
             ctx.check(has_origin(src, kind="param", key=1, path_suffix=(".collect_id",)), rule, fn.path, fn.loc(sites[0]),
                       "the id sent is the span's own collect_id", "", "origins %s" % origin_strs(src), extra="id")
     # collect_id is Some only where Span::root builds the span
-    n = 0
-    for g in facts.fns.values():
-        if g.crate != "fastrace":
-            continue
-        for b in g.calls_re(r"^fastrace::span::Span::new$", cleanup=False):
-            n += 1
-            src = prov.of_operand(g, g.term(b)["args"][2])
-            is_none = all(o.kind == "agg" and o.key.endswith("Option::None") for o in src)
-            if g.path == "fastrace::span::Span::root":
-                ctx.ok(rule, g.path, g.loc(b), "Span::root passes Some(collect_id)", origin_strs(src).__str__(), extra="new-root")
-            else:
-                ctx.check(is_none, rule, g.path, g.loc(b),
-                          "only Span::root creates spans with collect_id = Some (non-root spans cannot cancel or commit a trace)",
-                          "None", "Span::new called with collect_id origins %s" % origin_strs(src), extra="new")
-    ctx.floor(rule, "fastrace::span::Span::new", n, 3, "call sites of Span::new")
-    # SpanInner is only built in Span::new
-    builders = set()
-    for g in facts.fns.values():
-        for blk in g.blocks:
-            for s in blk["stmts"]:
-                if s["k"] == "assign" and s["rv"]["k"] == "agg" and s["rv"].get("adt") == "fastrace::span::SpanInner":
-                    builders.add(g.path)
-    ctx.check(builders == {"fastrace::span::Span::new"}, rule, "fastrace::span::SpanInner", "-",
-              "SpanInner is constructed only in Span::new", "", "constructed in %s" % sorted(builders), extra="builders")
+    builds = span_builds(facts)
+    hosts = set()
+    for g, b, f in builds:
+        host = re.sub(r"(::\{closure#[^}]*\})+$", "", g.path)
+        hosts.add(host)
+        src = prov.of_operand(g, f["collect_id"]) if "collect_id" in f else set()
+        is_none = bool(src) and all(o.kind == "agg" and o.key.endswith("Option::None") for o in src)
+        if host == "fastrace::span::Span::root":
+            ctx.ok(rule, g.path, g.loc(b), "Span::root passes Some(collect_id)", origin_strs(src).__str__(), extra="new-root")
+        else:
+            ctx.check(is_none, rule, g.path, g.loc(b),
+                      "only Span::root creates spans with collect_id = Some (non-root spans cannot cancel or commit a trace)",
+                      "None", "a span is built with collect_id origins %s" % origin_strs(src), extra="new")
+    ctx.floor(rule, "fastrace::span::SpanInner", len(builds), 3, "places where a recording span is built")
+    allowed = {"fastrace::span::Span::root", "fastrace::span::Span::enter_with_parents", "fastrace::span::Span::enter_with_stack", SPAN_NEW}
+    ctx.check(hosts <= allowed, rule, "fastrace::span::SpanInner", "-",
+              "recording spans are built only by Span::root, enter_with_parents and enter_with_stack (through the private constructor)", "",
+              "SpanInner constructed in %s" % sorted(hosts - allowed), extra="builders")
 
 
 def rule_fanout(ctx, c, rule):
